@@ -9,7 +9,7 @@ use pest_typed::iterators::Pair;
 use pest_typed::tracker::Tracker;
 use pest_typed::{AsInput, Input, Stack, TypedNode};
 
-pub const GRAMMAR_DOC: &str = "x={\"a\"} y={\"b\"} g_pair={x~y~x} g_opt={x~y?} g_alt={x|y} g_rep={x*~y} g_pos={&x~x} g_neg={!y~x} g_nest={(x~y?)?~x} g_deep={g_opt~x}";
+pub const GRAMMAR_DOC: &str = "x={\"a\"} y={\"b\"} g_pair={x~y~x} g_opt={x~y?} g_alt={x|y} g_rep={x*~y} g_pos={&x~x} g_neg={!y~x} g_nest={(x~y?)?~x} g_deep={g_opt~x} g_three={((x?~b)?~b)?~y} g_push={(PUSH(x?)~y~DROP)?~y}";
 
 pub mod gb {
     use pest_typed_derive::TypedParser;
@@ -25,6 +25,8 @@ g_pos  = { &x ~ x }
 g_neg  = { !y ~ x }
 g_nest = { (x ~ y?)? ~ x }
 g_deep = { g_opt ~ x }
+g_three = { ((x? ~ "b")? ~ "b")? ~ y }
+g_push = { (PUSH(x?) ~ y ~ DROP)? ~ y }
 "#]
     #[emit_rule_reference]
     pub struct P;
@@ -43,6 +45,8 @@ g_pos  = { &x ~ x }
 g_neg  = { !y ~ x }
 g_nest = { (x ~ y?)? ~ x }
 g_deep = { g_opt ~ x }
+g_three = { ((x? ~ "b")? ~ "b")? ~ y }
+g_push = { (PUSH(x?) ~ y ~ DROP)? ~ y }
 "#]
     #[emit_rule_reference]
     #[box_only_if_needed]
@@ -194,6 +198,50 @@ macro_rules! getters_for {
                     core::mem::forget(r);
                 }
             }
+            pub fn three() {
+                let buf = nd::ascii_buf::<3>(b"ab");
+                let s = unsafe { core::str::from_utf8_unchecked(&buf) };
+                if let Some(r) = parse::<g::rules::g_three<'_, 1>>(s) {
+                    // three nested optional levels are still flattened to one Option
+                    let x: Option<&g::rules::x<'_, 1>> = r.x();
+                    let c = &r.content.content;
+                    let walked: Option<&g::rules::x<'_, 1>> = match &c.0.matched {
+                        None => None,
+                        Some(l1) => match &l1.content.0.matched {
+                            None => None,
+                            Some(l2) => l2.content.0.matched.as_ref(),
+                        },
+                    };
+                    match (x, walked) {
+                        (None, None) => {}
+                        (Some(a), Some(b)) => assert!(ptr::eq(a, b), "x() is not the node stored three optionals deep"),
+                        _ => panic!("x() is Some/None unlike the node in the content"),
+                    }
+                    cover!(x.is_some(), "innermost optional matched");
+                    cover!(x.is_none() && c.0.matched.is_some(), "outer levels matched, innermost did not");
+                    core::mem::forget(r);
+                }
+            }
+            pub fn push() {
+                let buf = nd::ascii_buf::<3>(b"ab");
+                let s = unsafe { core::str::from_utf8_unchecked(&buf) };
+                if let Some(r) = parse::<g::rules::g_push<'_, 1>>(s) {
+                    let x: Option<&g::rules::x<'_, 1>> = r.x();
+                    let c = &r.content.content;
+                    let walked: Option<&g::rules::x<'_, 1>> = match &c.0.matched {
+                        None => None,
+                        Some(l1) => l1.content.0.matched.content.as_ref(),
+                    };
+                    match (x, walked) {
+                        (None, None) => {}
+                        (Some(a), Some(b)) => assert!(ptr::eq(a, b), "x() is not the node stored inside PUSH(..)"),
+                        _ => panic!("x() is Some/None unlike the node in the content"),
+                    }
+                    cover!(x.is_some(), "pushed optional matched");
+                    cover!(x.is_none() && c.0.matched.is_some(), "group matched, pushed optional empty");
+                    core::mem::forget(r);
+                }
+            }
             pub fn deep() {
                 let buf = nd::ascii_buf::<3>(b"ab");
                 let s = unsafe { core::str::from_utf8_unchecked(&buf) };
@@ -223,6 +271,8 @@ harnesses! {
     #[kani::unwind(5)] fn c16_boxed_neg() [T0 S F] : "Q|g_neg = { !y ~ x }: x() only (no getter under a negative predicate)" { boxed::neg() }
     #[kani::unwind(5)] fn c16_boxed_nest() [T0 S F] : "Q|g_nest = { (x ~ y?)? ~ x }: nested options flattened, absent outer optional gives None" { boxed::nest() }
     #[kani::unwind(5)] fn c16_boxed_deep() [T0 S F] : "Q|g_deep = { g_opt ~ x }: only nodes matched directly by the rule's own expression" { boxed::deep() }
+    #[kani::unwind(5)] fn c16_boxed_three() [T0 S F] : "Q|g_three = { ((x? ~ \"b\")? ~ \"b\")? ~ y }: three nested optional levels flatten to one Option, Some exactly when the innermost matched" { boxed::three() }
+    #[kani::unwind(5)] fn c16_boxed_push() [T0 S F] : "Q|g_push = { (PUSH(x?) ~ y ~ DROP)? ~ y }: an optional mention inside PUSH inside an optional group flattens to one Option" { boxed::push() }
     #[kani::unwind(5)] fn c16_unboxed_pair() [T0 S F] : "Q|g_pair with box_only_if_needed (content stored inline)" { unboxed::pair() }
     #[kani::unwind(5)] fn c16_unboxed_opt() [T0 S F] : "Q|g_opt with box_only_if_needed" { unboxed::opt() }
     #[kani::unwind(5)] fn c16_unboxed_rep() [T0 S F] : "Q|g_rep with box_only_if_needed" { unboxed::rep() }
